@@ -105,6 +105,12 @@ def cases(tier, rng):
         for idl in (range(200, 236) if tier == "quick" else range(150, 256)):
             out.append("y%d ready %s r%d.%02x" % (k, t, idl, 0x41 + idl % 20))
             k += 1
+    # what the library itself puts on a REAL connection first: greeting + READY, on the bind side and on the connect side,
+    # tcp and ipc (the scripted connections above are attached through the connect-side code path only)
+    for t in ("PUB", "SUB", "XPUB", "REQ", "REP", "DEALER", "ROUTER", "PUSH", "PULL"):
+        for how in ("bind tcp4 / conn 0", "bind ipc / conn 0", "connout"):
+            out.append("g%d rt %s / %s / hs 0" % (k, t, how))
+            k += 1
     return out
 
 
@@ -129,7 +135,7 @@ def py_hdr(more, n):
 
 def compare_filter(line):
     # encdec: implementation-only round trip; i: socket-level identity option (the model's sockets have no options)
-    return line.split()[1] != "encdec" and not line.startswith(("i", "m"))
+    return line.split()[1] not in ("encdec", "rt") and not line.startswith(("i", "m"))
 
 
 def model_cases(case_lines):
@@ -172,6 +178,20 @@ def judge(line, impl_obs, orc):
         return "no observation"
     if impl_obs.startswith(("panic", "abort", "hang")):
         return "implementation " + impl_obs
+    if kind == "rt":
+        tk = [x for x in impl_obs.split() if x.startswith("h#0=")]
+        if not tk or tk[0] == "h#0=-":
+            return "no handshake with a real %s socket: %s" % (sp[2], impl_obs[:100])
+        b = bytes.fromhex(tk[0][4:])
+        want = bytes([0xff]) + bytes(8) + bytes([0x7f, 3, 0]) + b"NULL" + bytes(16) + bytes([0]) + bytes(31)
+        if b[:64] != want:
+            d = [i_ for i_ in range(min(64, len(b))) if b[i_] != want[i_]]
+            return "greeting sent by a %s socket (%s) differs from the RFC 23 NULL greeting at octet(s) %s" % (sp[2], " ".join(sp[3:6]), d[:6])
+        rdy = b[64:]
+        body = bytes([5]) + b"READY" + bytes([11]) + b"Socket-Type" + len(sp[2]).to_bytes(4, "big") + sp[2].encode()
+        if rdy != bytes([4, len(body)]) + body:
+            return "READY sent by a %s socket (%s) is not the RFC 23 READY with Socket-Type only: %s" % (sp[2], " ".join(sp[3:6]), rdy.hex()[:80])
+        return None
     if kind == "encdec":
         if impl_obs != "lib=ok":
             return "the library does not decode the bytes it encoded back to the identical message: " + str(impl_obs)
